@@ -36,6 +36,8 @@ pub struct Clause {
 #[derive(Debug, Clone, Default)]
 pub struct LoopContract {
     pub invariants: Vec<Clause>,
+    pub invariants_except_break: Vec<Clause>,
+    pub ensures: Vec<Clause>,
     pub decreases: Option<String>,
     pub proof_head: Option<String>,
 }
@@ -110,7 +112,8 @@ pub fn parse_contracts(src: &str) -> Result<Contracts, String> {
     for (i, raw) in src.lines().enumerate() {
         let ln = i + 1;
         let t = raw.trim_end();
-        if t.trim().is_empty() || t.trim_start().starts_with('#') {
+        let tt = t.trim_start();
+        if tt.is_empty() || tt == "#" || tt.starts_with("# ") || (tt.starts_with('#') && !tt.starts_with("#[") && !tt.starts_with("#!")) {
             continue;
         }
         let indent = t.len() - t.trim_start().len();
@@ -163,6 +166,14 @@ pub fn parse_contracts(src: &str) -> Result<Contracts, String> {
                     "invariant" => {
                         let (name, strength, expr) = split_named(r, ln)?;
                         lc.invariants.push(Clause { name, text: expr, strength, src_line: ln });
+                    }
+                    "invariant_except_break" => {
+                        let (name, strength, expr) = split_named(r, ln)?;
+                        lc.invariants_except_break.push(Clause { name, text: expr, strength, src_line: ln });
+                    }
+                    "ensures" => {
+                        let (name, strength, expr) = split_named(r, ln)?;
+                        lc.ensures.push(Clause { name, text: expr, strength, src_line: ln });
                     }
                     "decreases" => lc.decreases = Some(r.to_string()),
                     "proof" => lc.proof_head = Some(r.to_string()),
